@@ -180,6 +180,18 @@ def run_independence(rep, tier):
         c2 = TS.from_timeseries(r.ns)
         wins = r.split(2 * DT)
         findings = []
+        # TimeSeries.split called directly, and the constructor given an existing array
+        raw = np.array(list(s["vt"]), dtype=object)
+        ts = TS(raw, DT)
+        twins = ts.split(2 * DT)
+        for j, w in enumerate(twins):
+            if shares(w.amplitude, ts.amplitude):
+                findings.append(f"TimeSeries.split window {j} shares storage with the series it was cut from")
+            for w2 in twins[j + 1:]:
+                if shares(w.amplitude, w2.amplitude):
+                    findings.append("TimeSeries.split windows share storage with each other")
+        if shares(ts.amplitude, raw):
+            findings.append("TimeSeries stores the array it was given without copying")
         for c in ("ns", "ew", "vt"):
             if shares(getattr(r, c).amplitude, src_ts[c].amplitude) or shares(getattr(r, c).amplitude, s[c]):
                 findings.append(f"constructor stores component {c} without copying")
@@ -332,9 +344,12 @@ def replay(spec):
         c1 = hvsrpy.SeismicRecording3C.from_seismic_recording_3c(r)
         c2 = hvsrpy.TimeSeries.from_timeseries(r.ns)
         wins = r.split(2 * DT)
-        snap = [c1.ns.amplitude.copy(), c2.amplitude.copy()] + [w.ns.amplitude.copy() for w in wins]
+        ts = hvsrpy.TimeSeries(np.arange(7.0), DT)
+        twins = ts.split(2 * DT)
+        snap = [c1.ns.amplitude.copy(), c2.amplitude.copy()] + [w.ns.amplitude.copy() for w in wins] + [w.amplitude.copy() for w in twins]
         r.ns.amplitude[:] = -9.0
-        now = [c1.ns.amplitude, c2.amplitude] + [w.ns.amplitude for w in wins]
+        ts.amplitude[:] = -9.0
+        now = [c1.ns.amplitude, c2.amplitude] + [w.ns.amplitude for w in wins] + [w.amplitude for w in twins]
         bad = any(not np.array_equal(a, b) for a, b in zip(snap, now)) or c1.meta is r.meta
         return {"reproduced": bool(bad), "key": "copy-shares-storage", "detail": "copy changed after editing the source" if bad else "independent"}
     return {"reproduced": False, "detail": "unknown"}
